@@ -131,6 +131,37 @@ pub fn run(ctx: &mut Ctx) {
         check(ctx, "sm3_hash", &m, &e, "random multi-block");
     }
 
+    // --- size thresholds x every residue modulo the block size: 2^k + r for r in 0..=64 (a bulk / streaming path that
+    // starts at some size has its own padding decision)
+    {
+        let ks: Vec<u32> = if ctx.thorough { vec![13, 16, 20, 22, 24, 26, 28] } else { vec![16, 20, 24] };
+        let mut pt = ctx.prng("threshold_residues");
+        let mut ti = 0u64;
+        for k in ks {
+            // one buffer per threshold, hashed through prefixes of every length
+            let buf = pt.bytes(4096);
+            for r in 0..=64usize {
+                ti += 1;
+                if !ctx.mine(ti) {
+                    continue;
+                }
+                let len = (1usize << k) + r;
+                let mut m = vec![0xa5u8; len];
+                m[..4096].copy_from_slice(&buf);
+                m[len - 1] = r as u8;
+                let mut h = rsm3::Sm3::new();
+                for ch in m.chunks(1 << 20) {
+                    h.update(ch);
+                }
+                let e = h.finish();
+                ctx.distinct("sm3", &[&(k as u64).to_be_bytes(), &(r as u64).to_be_bytes()]);
+                ctx.class("size_threshold_x_residue");
+                check(ctx, "sm3_hash", &m, &e, &format!("2^{} + {} bytes", k, r));
+            }
+        }
+        ctx.exhaustive("lengths 2^k + r, r in 0..=64, k in {16, 20, 24} (thorough: also 13, 22, 26, 28)", true);
+    }
+
     // --- purity: same inputs re-hashed after unrelated calls, in permuted order, and from threads
     let mut prng = ctx.prng("purity");
     let npure = 2000u64;
@@ -222,6 +253,16 @@ pub fn run(ctx: &mut Ctx) {
         ctx.journal_call("sm3_hash", &format!("zero message of {} bytes", len));
         check(ctx, "sm3_hash", &m, &e, &format!("{} zero bytes", name));
         ctx.journal_ret("done");
+        // purity right after a message whose length needs the upper half of the length field: short messages of every
+        // padding shape, the two-block shapes first (rotated per big message), must hash as if nothing came before
+        let mut after: Vec<usize> = vec![56, 57, 58, 59, 60, 61, 62, 63, 119, 120, 127, 0, 1, 55, 64, 3];
+        after.rotate_left(k % 8);
+        for (j, al) in after.iter().enumerate() {
+            let sm: Vec<u8> = (0..*al).map(|x| (x * 7 + j) as u8).collect();
+            let es = rsm3::sm3(&sm);
+            ctx.class("short_message_right_after_big_message");
+            check(ctx, "sm3_hash", &sm, &es, &format!("{} bytes right after {} zero bytes", al, name));
+        }
         ctx.sample(json!({"op": "sm3_hash", "len": len, "content": "zero", "digest": hex::encode(e)}));
     }
     ctx.note("length-field bytes 5..7 (messages >= 128 GiB) are out of reach on this machine; bytes 0..4 are exercised");
